@@ -76,6 +76,8 @@ var specs = map[string]propSpec{
 	"C17": {Binaries: true},
 	"C13": {Binaries: true},
 	"C20": {Binaries: true},
+	"C06": {Binaries: true},
+	"C07": {Binaries: true},
 }
 
 func spec(id string) propSpec {
